@@ -28,6 +28,8 @@ func c15cfg(todoMask int) *Cfg {
 		{"pfirst", "%pt%:%pm%"},
 		{"pa", "%pt%"},
 		{"pa2", "[%pa%]"},
+		{"zalias", "%pt%"},
+		{"zalias2", "%pm%"},
 	}
 	st := Service{Name: "st", Constructor: P("pk.New1"), Args: []any{"real-st"}}
 	if todoMask&4 != 0 {
@@ -51,6 +53,7 @@ func c15cfg(todoMask int) *Cfg {
 
 // c15deps: what each entity (transitively) depends on.
 var c15deps = map[string][]string{
+	"p:zalias": {"p:pt"}, "p:zalias2": {"p:pm"},
 	"p:pd": {"p:pt", "p:pm"}, "p:pd2": {"p:pf"}, "p:pfirst": {"p:pt", "p:pm"}, "p:pa": {"p:pt"}, "p:pa2": {"p:pa", "p:pt"},
 	"s:sd": {"s:st", "s:su", "p:pd", "p:pt", "p:pm"}, "s:sp": {"p:pd2", "p:pf"},
 }
@@ -111,7 +114,7 @@ func init() {
 	Register(&Check{
 		ID:    "C15",
 		Level: "model_checking",
-		Rule: "verdict: all 16 subsets of {2 parameters, 2 services} marked todo (with dependants, incl. a todo service carrying otherwise invalid attributes) must be accepted without 'missing' diagnostics; histories: for 4 todo subsets, explicit-state BFS to depth 4 (quick) / 5 (thorough) over {GetParam x 8, Get x 4, OverrideParam(pt|pm, value | lazily counted provider | failing provider), OverrideService(st, two constructors | value)} with at most 2 overrides per history; every transition replayed on a fresh real container; " +
+		Rule: "verdict: all 16 subsets of {2 parameters, 2 services} marked todo (with dependants, incl. a todo service carrying otherwise invalid attributes) must be accepted without 'missing' diagnostics; histories: for 4 todo subsets, explicit-state BFS to depth 4 (quick) / 5 (thorough) over {GetParam x 10, Get x 4, OverrideParam(pt|pm, value | lazily counted provider | failing provider), OverrideService(st, two constructors | value)} with at most 2 overrides per history; every transition replayed on a fresh real container; " +
 			"compared: todo errors before an override, the value seen by dependants not yet constructed at the time of the override, function-call counters (laziness: zero right after construction), reached cache state",
 		Assumptions: []string{"observations of entities constructed before an override of one of their dependencies are unspecified by the statement and masked (the rest of such a history is not compared)"},
 		BudgetQuick: 280 * time.Second, BudgetThorough: 1500 * time.Second,
@@ -165,7 +168,7 @@ func init() {
 			}
 			val := func(v any) *ProbeSpec { return &ProbeSpec{Kind: "value", V: v} }
 			alphabet := []ProbeOp{
-				op("param", "pt"), op("param", "pm"), op("param", "pd"), op("param", "pf"), op("param", "pd2"), op("param", "pa"), op("param", "pa2"), op("param", "pfirst"),
+				op("param", "pt"), op("param", "pm"), op("param", "pd"), op("param", "pf"), op("param", "pd2"), op("param", "pa"), op("param", "pa2"), op("param", "pfirst"), op("param", "zalias"), op("param", "zalias2"),
 				op("get", "st"), op("get", "su"), op("get", "sd"), op("get", "sp"),
 				{Op: "overrideParam", Name: "pt", Val: val("ov1")},
 				{Op: "overrideParam", Name: "pt", Val: &ProbeSpec{Kind: "provider", V: map[string]any{"int": 2}}},
